@@ -13,7 +13,12 @@ The model is the one of C02 (`PgFdr/Model/C02.lean`, driver op `compete`), with 
 `np.random.shuffle` calls as explicit permutations `π₁ π₂` (`y[i] = x[π i]`).  The theorems say: the
 order inside every tie class is exactly the order the shuffle produced (stability of both sorts, the
 keys contain nothing but score and placeholder flag), the arrival order of the input is absorbed
-into `π₁`, and over all `n!` shuffles every relative order of a tie class is produced equally often.
+into `π₁`, and over all `n!` shuffles every one of the `k!` relative orders of a tie class is produced
+by exactly `n!/k!` of them (`relative_orders_equally_often`), assembled for the executed ranking
+(`ranking_tie_order_uniform`: over all second shuffles), the pass order (`pass_tie_order_uniform`:
+over all first shuffles) and a tied target/decoy twin pair (`twin_survivor_half`: each survives for
+exactly half of the first shuffles); `permList_surjective`: the permutations quantified over are
+exactly the well-formed recorded index lists.
 That numpy's generator draws the permutation uniformly is trusted (`level` note), as is the seed.
 -/
 namespace PgFdr.C14
@@ -108,26 +113,14 @@ open Equiv in
 /-- "drawn uniformly at random" (counting form): for every relative order `o` of a tie class `S` of
     an `n`-element list and every relabelling `ρ` of the positions that maps the class to itself,
     exactly as many of the `n!` shuffles list the class in the order `o` as in the order `o.map ρ`.
-    The relabellings act transitively on the `k!` orders of the class, so a uniformly drawn shuffle
-    makes all of them equally likely — targets before decoys exactly as often as decoys before targets. -/
+    (One step of the argument; the relabellings act transitively on the `k!` orders of the class —
+    `exists_relabel`, `card_induced_eq` in `Proofs/C14.lean` — and the full statement, every order is
+    induced by exactly `n!/k!` shuffles, is `relative_orders_equally_often` below.) -/
 theorem uniform_induced_order {n : ℕ} (S : Fin n → Bool) (ρ : Perm (Fin n)) (hρ : ∀ x, S (ρ x) = S x)
     (o : List (Fin n)) :
     Fintype.card {σ : Perm (Fin n) // induced S σ = o} =
       Fintype.card {σ : Perm (Fin n) // induced S σ = o.map ρ} := by
-  apply Fintype.card_congr
-  refine
-    { toFun := fun σ => ⟨ρ * σ.1, by rw [induced_mul S ρ σ.1 hρ, σ.2]⟩
-      invFun := fun σ => ⟨ρ⁻¹ * σ.1, ?_⟩
-      left_inv := fun σ => by ext; simp
-      right_inv := fun σ => by ext; simp }
-  have hρ' : ∀ x, S (ρ⁻¹ x) = S x := by
-    intro x
-    have := hρ (ρ⁻¹ x)
-    simp at this
-    exact this.symm
-  rw [induced_mul S ρ⁻¹ σ.1 hρ', σ.2, List.map_map]
-  have : (⇑ρ⁻¹ ∘ ⇑ρ) = id := by funext x; simp
-  rw [this, List.map_id]
+  exact card_induced_map S ρ hρ o
 
 open Equiv in
 /-- link between the counting statement and the executed model: the order in which the model's
@@ -136,11 +129,257 @@ open Equiv in
 theorem shuffled_tie_class_is_induced {α : Type} (x : List α) (p : α → Bool) (σ : Perm (Fin x.length)) :
     (permList σ).Perm (List.range x.length) ∧
     (shuffle x (permList σ)).filter p = (induced (fun i => p x[i]) σ).map (fun i => x[i]) := by
-  refine ⟨permList_perm σ, ?_⟩
-  rw [shuffle_permList]
-  unfold induced
-  rw [List.filter_map, List.filter_map, List.map_map]
-  rfl
+  exact ⟨permList_perm σ, shuffle_filter_induced x p σ⟩
+
+/-! ### audit B8: "uniformly at random" as a counting theorem, assembled for the executed ranking -/
+
+open Equiv in
+/-- "their relative order in the ranking … is drawn uniformly at random": let `S` be a tie class of an
+    `n`-element list, with `k` members.  The relative orders of the class are the `k!` arrangements
+    `o` of its positions (`o.Perm ((List.finRange n).filter S)`; `relative_orders_are_k_factorial`
+    below).  Over all `n!` permutations `σ` (the model of a uniformly drawn shuffle) EVERY such order
+    is induced by exactly `n!/k!` of them — the division is exact (second conjunct).  So a uniform
+    shuffle makes every relative order of the tied groups occur with probability `1/k!`: for `k = 2`
+    (a target and an equally scoring decoy) each of the two stands first in exactly half the shuffles. -/
+theorem relative_orders_equally_often {n : ℕ} (S : Fin n → Bool) (o : List (Fin n))
+    (ho : o.Perm ((List.finRange n).filter S)) :
+    Fintype.card {σ : Perm (Fin n) // induced S σ = o} = n.factorial / o.length.factorial ∧
+    Fintype.card {σ : Perm (Fin n) // induced S σ = o} * o.length.factorial = n.factorial := by
+  refine ⟨card_induced_div S o ho, ?_⟩
+  rw [ho.length_eq]
+  exact card_induced_mul S o ho
+
+open Equiv in
+/-- the orders counted by `relative_orders_equally_often` are all there is: whatever the shuffle, the
+    order it induces on the class is one of the arrangements of the class's positions, and there are
+    exactly `k!` of those (listed without repetition by `List.permutations`) -/
+theorem relative_orders_are_k_factorial {n : ℕ} (S : Fin n → Bool) :
+    (∀ σ : Perm (Fin n), induced S σ ∈ ((List.finRange n).filter S).permutations) ∧
+    (∀ o, o ∈ ((List.finRange n).filter S).permutations ↔ o.Perm ((List.finRange n).filter S)) ∧
+    ((List.finRange n).filter S).permutations.Nodup ∧
+    ((List.finRange n).filter S).permutations.length = ((List.finRange n).filter S).length.factorial :=
+  ⟨fun σ => List.mem_permutations.mpr (induced_perm_cls S σ), fun _ => List.mem_permutations,
+    List.nodup_permutations _ (cls_nodup S), List.length_permutations _⟩
+
+open Equiv in
+/-- quantifying over `Equiv.Perm (Fin n)` IS quantifying over the well-formed recorded shuffles: an
+    index list `π` is a rearrangement of `range n` (what `np.random.shuffle` can have applied to `n`
+    items, what the driver's `isPermOfRange` accepts, the hypothesis of C02's theorems) exactly when it
+    is the index list of a permutation, and different permutations have different index lists -/
+theorem permList_surjective {n : ℕ} :
+    (∀ π : List Nat, π.Perm (List.range n) ↔ ∃ σ : Perm (Fin n), permList σ = π) ∧
+    Function.Injective (permList (n := n)) :=
+  ⟨fun π => ⟨exists_permList_eq π, fun ⟨σ, h⟩ => h ▸ permList_perm σ⟩, permList_injective⟩
+
+open Equiv in
+/-- "their relative order in the ranking … is drawn uniformly at random", for the executed model: fix
+    the input, the strategy and the first shuffle `π₁` (hence the survivors `keptFrom …`, `m` of them),
+    and a score `q` with `k` survivors.  As the second shuffle ranges over all `m!` permutations of
+    the survivors, every arrangement `r` of the survivors of score `q` is what the RANKING
+    `doCompetition mode items π₁ π₂` shows at score `q` for exactly `m!/k!` of them — all `k!` relative
+    orders equally often.  (`r.Nodup`: the tied groups are distinct items; see
+    `ranking_tie_order_uniform_positions` for the statement by positions, without it.) -/
+theorem ranking_tie_order_uniform (mode : Mode) (items : List Item) (π₁ : List Nat) (q : Rat)
+    (r : List Item)
+    (hr : r.Perm ((keptFrom mode [] items π₁).filter (fun x => decide (x.score = q)))) (hnd : r.Nodup) :
+    Fintype.card {σ : Perm (Fin (keptFrom mode [] items π₁).length) //
+        (doCompetition mode items π₁ (permList σ)).filter (fun x => decide (x.score = q)) = r} =
+      (keptFrom mode [] items π₁).length.factorial / r.length.factorial ∧
+    Fintype.card {σ : Perm (Fin (keptFrom mode [] items π₁).length) //
+        (doCompetition mode items π₁ (permList σ)).filter (fun x => decide (x.score = q)) = r} *
+      r.length.factorial = (keptFrom mode [] items π₁).length.factorial := by
+  have hc : Fintype.card {σ : Perm (Fin (keptFrom mode [] items π₁).length) //
+        (doCompetition mode items π₁ (permList σ)).filter (fun x => decide (x.score = q)) = r} =
+      Fintype.card {σ : Perm (Fin (keptFrom mode [] items π₁).length) //
+        (shuffle (keptFrom mode [] items π₁) (permList σ)).filter (fun x => decide (x.score = q)) = r} :=
+    Fintype.card_congr (Equiv.subtypeEquivRight (fun σ => by
+      rw [(ties_follow_shuffle mode items π₁ (permList σ) q true).1]))
+  rw [hc]
+  exact ⟨card_shuffle_filter_div _ _ r hr hnd, card_shuffle_filter_mul _ _ r hr hnd⟩
+
+open Equiv in
+/-- the same by positions, with no distinctness hypothesis: for every second shuffle the ranking at
+    score `q` is the image of the order the shuffle induces on the positions (among the survivors)
+    of the groups of score `q`, and each of the `k!` orders of these positions is induced by exactly
+    `m!/k!` of the `m!` second shuffles -/
+theorem ranking_tie_order_uniform_positions (mode : Mode) (items : List Item) (π₁ : List Nat) (q : Rat) :
+    (∀ σ : Perm (Fin (keptFrom mode [] items π₁).length),
+      (doCompetition mode items π₁ (permList σ)).filter (fun x => decide (x.score = q)) =
+        (induced (fun i => decide ((keptFrom mode [] items π₁)[i].score = q)) σ).map
+          (fun i => (keptFrom mode [] items π₁)[i])) ∧
+    ∀ o : List (Fin (keptFrom mode [] items π₁).length),
+      o.Perm ((List.finRange _).filter (fun i => decide ((keptFrom mode [] items π₁)[i].score = q))) →
+      Fintype.card {σ : Perm (Fin (keptFrom mode [] items π₁).length) //
+        induced (fun i => decide ((keptFrom mode [] items π₁)[i].score = q)) σ = o} =
+        (keptFrom mode [] items π₁).length.factorial / o.length.factorial := by
+  refine ⟨fun σ => ?_, fun o ho => card_induced_div _ o ho⟩
+  rw [(ties_follow_shuffle mode items π₁ (permList σ) q true).1]
+  exact shuffle_filter_induced _ (fun x => decide (x.score = q)) σ
+
+open Equiv in
+/-- "and hence which of them competes first": the same for the PASS ORDER.  Fix the input (`n` groups
+    with evidence) and a (score, placeholder flag) `(q, ob)` with `k` groups.  As the first shuffle
+    ranges over all `n!` permutations, every arrangement `r` of these `k` groups is the order in which
+    they compete (`passOrder items π₁`, restricted to the class) for exactly `n!/k!` of them. -/
+theorem pass_tie_order_uniform (items : List Item) (q : Rat) (ob : Bool) (r : List Item)
+    (hr : r.Perm ((items.filter (·.hasEvidence)).filter
+      (fun x => decide (x.score = q) && (x.obsolete == ob)))) (hnd : r.Nodup) :
+    Fintype.card {σ : Perm (Fin (items.filter (·.hasEvidence)).length) //
+        (passOrder items (permList σ)).filter (fun x => decide (x.score = q) && (x.obsolete == ob)) = r} =
+      (items.filter (·.hasEvidence)).length.factorial / r.length.factorial ∧
+    Fintype.card {σ : Perm (Fin (items.filter (·.hasEvidence)).length) //
+        (passOrder items (permList σ)).filter (fun x => decide (x.score = q) && (x.obsolete == ob)) = r} *
+      r.length.factorial = (items.filter (·.hasEvidence)).length.factorial := by
+  have hc : Fintype.card {σ : Perm (Fin (items.filter (·.hasEvidence)).length) //
+        (passOrder items (permList σ)).filter (fun x => decide (x.score = q) && (x.obsolete == ob)) = r} =
+      Fintype.card {σ : Perm (Fin (items.filter (·.hasEvidence)).length) //
+        (shuffle (items.filter (·.hasEvidence)) (permList σ)).filter
+          (fun x => decide (x.score = q) && (x.obsolete == ob)) = r} :=
+    Fintype.card_congr (Equiv.subtypeEquivRight (fun σ => by
+      rw [(ties_follow_shuffle .classic items (permList σ) [] q ob).2]))
+  rw [hc]
+  exact ⟨card_shuffle_filter_div _ _ r hr hnd, card_shuffle_filter_mul _ _ r hr hnd⟩
+
+open Equiv in
+/-- "targets are not systematically ranked ahead of equally scoring decoys or vice versa", at the
+    competition: a tied target/decoy twin pair.  Let `a`, `b` be two distinct groups with evidence,
+    of equal score and equal placeholder flag, neither a contaminant, that exclude each other (an
+    identifier looked up for `b` is marked by `a` and vice versa — for the picked strategies: a target
+    and its decoy), and let no other group mark an identifier that is looked up for `a` or `b`.  Then
+    for EVERY first shuffle exactly one of the two survives, and each of them is the survivor for
+    exactly half of the `n!` first shuffles. -/
+theorem twin_survivor_half (mode : Mode) (items : List Item) (a b : Item)
+    (hnd : (items.filter (·.hasEvidence)).Nodup)
+    (ha : a ∈ items.filter (·.hasEvidence)) (hb : b ∈ items.filter (·.hasEvidence)) (hab : a ≠ b)
+    (hs : a.score = b.score) (ho : a.obsolete = b.obsolete)
+    (hca : contam a = false) (hcb : contam b = false)
+    (hba : ∃ k ∈ (strategy mode).key b, k ∈ (strategy mode).marks a)
+    (hab' : ∃ k ∈ (strategy mode).key a, k ∈ (strategy mode).marks b)
+    (hfree : ∀ x ∈ items.filter (·.hasEvidence), x ≠ a → x ≠ b →
+      ∀ k ∈ (strategy mode).marks x, k ∉ (strategy mode).key a ∧ k ∉ (strategy mode).key b) :
+    (∀ σ : Perm (Fin (items.filter (·.hasEvidence)).length),
+      (a ∈ keptFrom mode [] items (permList σ) ↔ b ∉ keptFrom mode [] items (permList σ))) ∧
+    2 * Fintype.card {σ : Perm (Fin (items.filter (·.hasEvidence)).length) //
+      a ∈ keptFrom mode [] items (permList σ)} = (items.filter (·.hasEvidence)).length.factorial ∧
+    2 * Fintype.card {σ : Perm (Fin (items.filter (·.hasEvidence)).length) //
+      b ∈ keptFrom mode [] items (permList σ)} = (items.filter (·.hasEvidence)).length.factorial := by
+  -- the pass order restricted to {a, b} is the first shuffle restricted to {a, b}
+  have hsub : ∀ (c d : Item), c.score = a.score → c.obsolete = a.obsolete → d.score = a.score →
+      d.obsolete = a.obsolete → ∀ σ : Perm (Fin (items.filter (·.hasEvidence)).length),
+      (passOrder items (permList σ)).filter (fun x => decide (x = c) || decide (x = d)) =
+        (shuffle (items.filter (·.hasEvidence)) (permList σ)).filter
+          (fun x => decide (x = c) || decide (x = d)) := by
+    intro c d hc1 hc2 hd1 hd2 σ
+    have hpq : ∀ l : List Item, l.filter (fun x => decide (x = c) || decide (x = d)) =
+        (l.filter (fun x => decide (x.score = a.score) && (x.obsolete == a.obsolete))).filter
+          (fun x => decide (x = c) || decide (x = d)) := by
+      intro l
+      rw [List.filter_filter]
+      apply List.filter_congr
+      intro x _
+      by_cases hxc : x = c
+      · simp [hxc, hc1, hc2]
+      · by_cases hxd : x = d
+        · simp [hxd, hd1, hd2]
+        · simp [hxc, hxd]
+    rw [hpq, (ties_follow_shuffle .classic items (permList σ) [] a.score a.obsolete).2, ← hpq]
+  -- the two arrangements of the pair
+  have hpair : ∀ (c d : Item), c ∈ items.filter (·.hasEvidence) → d ∈ items.filter (·.hasEvidence) →
+      c ≠ d → [c, d].Perm ((items.filter (·.hasEvidence)).filter
+        (fun x => decide (x = c) || decide (x = d))) := by
+    intro c d hc hd hcd
+    apply (List.perm_ext_iff_of_nodup (by simp [hcd]) (hnd.filter _)).mpr
+    intro x
+    rw [List.mem_filter (as := items.filter (·.hasEvidence))]
+    simp only [List.mem_cons, List.not_mem_nil, or_false, Bool.or_eq_true, decide_eq_true_eq]
+    constructor
+    · rintro (rfl | rfl)
+      · exact ⟨hc, Or.inl rfl⟩
+      · exact ⟨hd, Or.inr rfl⟩
+    · exact fun h => h.2
+  -- c before d in the pass order: c survives, d does not
+  have hwin : ∀ (c d : Item), c ≠ d → contam c = false →
+      (∃ k ∈ (strategy mode).key d, k ∈ (strategy mode).marks c) →
+      (∀ x ∈ items.filter (·.hasEvidence), x ≠ c → x ≠ d →
+        ∀ k ∈ (strategy mode).marks x, k ∉ (strategy mode).key c) →
+      ∀ σ : Perm (Fin (items.filter (·.hasEvidence)).length),
+      (passOrder items (permList σ)).filter (fun x => decide (x = c) || decide (x = d)) = [c, d] →
+      c ∈ keptFrom mode [] items (permList σ) ∧ d ∉ keptFrom mode [] items (permList σ) := by
+    intro c d hcd hcc hblock hfr σ hf
+    refine pass_twin (strategy mode) contam c d hcd hcc hblock _ [] (by simp) ?_ hf
+    intro x hx
+    exact hfr x ((passOrder_perm items _ (permList_perm σ)).mem_iff.mp hx)
+  have hflip : ∀ l : List Item, l.filter (fun x => decide (x = b) || decide (x = a)) =
+      l.filter (fun x => decide (x = a) || decide (x = b)) := by
+    intro l
+    apply List.filter_congr
+    intro x _
+    exact Bool.or_comm _ _
+  -- for every shuffle the pair stands in one of the two orders
+  have hdich : ∀ σ : Perm (Fin (items.filter (·.hasEvidence)).length),
+      (passOrder items (permList σ)).filter (fun x => decide (x = a) || decide (x = b)) = [a, b] ∨
+      (passOrder items (permList σ)).filter (fun x => decide (x = a) || decide (x = b)) = [b, a] := by
+    intro σ
+    apply List.perm_pair.mp
+    rw [hsub a b rfl rfl hs.symm ho.symm σ]
+    exact ((shuffle_perm _ _ (permList_perm σ)).filter _).trans (hpair a b ha hb hab).symm
+  have hA : ∀ σ : Perm (Fin (items.filter (·.hasEvidence)).length),
+      a ∈ keptFrom mode [] items (permList σ) ↔
+      (passOrder items (permList σ)).filter (fun x => decide (x = a) || decide (x = b)) = [a, b] := by
+    intro σ
+    constructor
+    · intro hmem
+      rcases hdich σ with h | h
+      · exact h
+      · rw [← hflip] at h
+        exact absurd hmem (hwin b a (Ne.symm hab) hcb hab'
+          (fun x hx h1 h2 k hk => (hfree x hx h2 h1 k hk).2) σ h).2
+    · intro h
+      exact (hwin a b hab hca hba (fun x hx h1 h2 k hk => (hfree x hx h1 h2 k hk).1) σ h).1
+  have hB : ∀ σ : Perm (Fin (items.filter (·.hasEvidence)).length),
+      b ∈ keptFrom mode [] items (permList σ) ↔
+      (passOrder items (permList σ)).filter (fun x => decide (x = a) || decide (x = b)) = [b, a] := by
+    intro σ
+    constructor
+    · intro hmem
+      rcases hdich σ with h | h
+      · exact absurd hmem (hwin a b hab hca hba (fun x hx h1 h2 k hk => (hfree x hx h1 h2 k hk).1) σ h).2
+      · exact h
+    · intro h
+      rw [← hflip] at h
+      exact (hwin b a (Ne.symm hab) hcb hab' (fun x hx h1 h2 k hk => (hfree x hx h2 h1 k hk).2) σ h).1
+  have hcount : ∀ r : List Item, r.Perm [a, b] →
+      2 * Fintype.card {σ : Perm (Fin (items.filter (·.hasEvidence)).length) //
+        (passOrder items (permList σ)).filter (fun x => decide (x = a) || decide (x = b)) = r} =
+      (items.filter (·.hasEvidence)).length.factorial := by
+    intro r hr
+    have hc : Fintype.card {σ : Perm (Fin (items.filter (·.hasEvidence)).length) //
+        (passOrder items (permList σ)).filter (fun x => decide (x = a) || decide (x = b)) = r} =
+      Fintype.card {σ : Perm (Fin (items.filter (·.hasEvidence)).length) //
+        (shuffle (items.filter (·.hasEvidence)) (permList σ)).filter
+          (fun x => decide (x = a) || decide (x = b)) = r} :=
+      Fintype.card_congr (Equiv.subtypeEquivRight (fun σ => by rw [hsub a b rfl rfl hs.symm ho.symm σ]))
+    have := card_shuffle_filter_mul (items.filter (·.hasEvidence))
+      (fun x => decide (x = a) || decide (x = b)) r (hr.trans (hpair a b ha hb hab))
+      (hr.nodup_iff.mpr (by simp [hab]))
+    rw [hr.length_eq] at this
+    rw [hc, Nat.mul_comm]
+    exact this
+  refine ⟨fun σ => ?_, ?_, ?_⟩
+  · rw [hA σ]
+    constructor
+    · intro h hb'
+      rw [hB σ, h] at hb'
+      simp only [List.cons.injEq, and_true] at hb'
+      exact hab hb'.1
+    · intro hnb
+      rcases hdich σ with h | h
+      · exact h
+      · exact absurd ((hB σ).mpr h) hnb
+  · rw [Fintype.card_congr (Equiv.subtypeEquivRight hA)]
+    exact hcount [a, b] (List.Perm.refl _)
+  · rw [Fintype.card_congr (Equiv.subtypeEquivRight hB)]
+    exact hcount [b, a] (List.Perm.swap _ _ _)
 
 /-! ## Non-vacuity
 
@@ -196,5 +435,60 @@ open Equiv in
 example : ∀ x : Fin 3, (fun i : Fin 3 => decide (i ≠ 2)) ((swap (0 : Fin 3) 1) x) =
     (fun i : Fin 3 => decide (i ≠ 2)) x := by
   decide
+
+
+/-! ### non-vacuity of the counting theorems (audit B8) -/
+
+open Equiv in
+/-- `relative_orders_equally_often` with `n = 3`, `k = 2` (positions 0 and 1 tied): both orders of the
+    class satisfy the hypothesis, and each is induced by `3!/2! = 3` of the 6 shuffles (counted by
+    evaluation, independently of the theorem) -/
+example : [(1 : Fin 3), 0].Perm ((List.finRange 3).filter (fun i => decide (i ≠ 2))) ∧
+    [(0 : Fin 3), 1].Perm ((List.finRange 3).filter (fun i => decide (i ≠ 2))) ∧
+    Fintype.card {σ : Perm (Fin 3) // induced (fun i => decide (i ≠ 2)) σ = [1, 0]} = 3 ∧
+    Fintype.card {σ : Perm (Fin 3) // induced (fun i => decide (i ≠ 2)) σ = [0, 1]} = 3 ∧
+    Nat.factorial 3 / Nat.factorial 2 = 3 := by
+  decide
+
+open Equiv in
+/-- `permList_surjective`: the recorded shuffle `[1,0,2]` is well formed and is the index list of the
+    transposition of 0 and 1 -/
+example : [1, 0, 2].Perm (List.range 3) ∧ permList (swap (0 : Fin 3) 1) = [1, 0, 2] := by
+  decide
+
+/-- a third input: target `A` and decoy `REV__C` tied at score 2, target `E` at score 1 -/
+private def tE : Item := ⟨["E"], [⟨1/10, "PEPE", ["E"]⟩], 1⟩
+private def ex3 : List Item := [tA, dC, tE]
+
+private theorem ex3_kept : keptFrom (.pickedGroup .leading) [] ex3 [0, 1, 2] = [tA, dC, tE] := by
+  unfold keptFrom passOrder
+  have : shuffle (ex3.filter (·.hasEvidence)) [0, 1, 2] = [tA, dC, tE] := by decide +kernel
+  rw [this, List.mergeSort_of_pairwise (by decide +kernel)]
+  decide +kernel
+
+/-- hypotheses of `ranking_tie_order_uniform` (`m = 3` survivors, `k = 2` of score 2): the order
+    "decoy first" is one of the arrangements, for `3!/2! = 3` of the 6 second shuffles -/
+example : [dC, tA].Perm ((keptFrom (.pickedGroup .leading) [] ex3 [0, 1, 2]).filter
+      (fun x => decide (x.score = 2))) ∧ [dC, tA].Nodup ∧
+    (keptFrom (.pickedGroup .leading) [] ex3 [0, 1, 2]).length = 3 := by
+  rw [ex3_kept]; decide +kernel
+
+/-- hypotheses of `pass_tie_order_uniform` (`n = 3`, the class (2, regular) has `k = 2` members) -/
+example : [dC, tA].Perm ((ex3.filter (·.hasEvidence)).filter
+    (fun x => decide (x.score = 2) && (x.obsolete == false))) ∧ [dC, tA].Nodup := by
+  decide +kernel
+
+/-- hypotheses of `twin_survivor_half`: target `A`, its decoy `REV__A` with the same score, and an
+    unrelated target `B`, under the picked strategy (both twins look up and mark the identifier `A`) -/
+private def dA : Item := ⟨["REV__A"], [⟨1/100, "PEPR", ["REV__A"]⟩], 2⟩
+example :
+    ([tA, dA, tB].filter (·.hasEvidence)).Nodup ∧
+    tA ∈ [tA, dA, tB].filter (·.hasEvidence) ∧ dA ∈ [tA, dA, tB].filter (·.hasEvidence) ∧ tA ≠ dA ∧
+    tA.score = dA.score ∧ tA.obsolete = dA.obsolete ∧ contam tA = false ∧ contam dA = false ∧
+    (∃ k ∈ (strategy .picked).key dA, k ∈ (strategy .picked).marks tA) ∧
+    (∃ k ∈ (strategy .picked).key tA, k ∈ (strategy .picked).marks dA) ∧
+    (∀ x ∈ [tA, dA, tB].filter (·.hasEvidence), x ≠ tA → x ≠ dA →
+      ∀ k ∈ (strategy .picked).marks x, k ∉ (strategy .picked).key tA ∧ k ∉ (strategy .picked).key dA) := by
+  decide +kernel
 
 end PgFdr.C14
